@@ -45,7 +45,7 @@ func (check) Cases(tier string) int { return len(table) + randomCases(tier) }
 func (check) Exhaustive(string) bool { return false }
 
 func (check) Rule() string {
-	return "setting values: a finite boundary table (0, +-1, +-2^k and +-(2^k+-1) for k in {7,8,15,16,31,32,53,63,64}, float neighbours of +-2^31/2^32/2^63/2^64/2^53, MaxFloat32 / the float32 rounding limit / MaxFloat64 / subnormals and their neighbours, +-Inf, NaN, -0, fractional values at every sized maximum, second counts at +-9223372036(.854775807) and at 2^53ns/2^62ns; each as int64, uint64, float64 and in every strconv spelling: decimal, 0x, 0X, 0b, 0o, 0NNN, 1_000, +N, N.0, Ne0, %g/%e/%E/%x/%f; plus booleans, duration strings at the int64 limits and unparsable strings) - one case per table value: the value built 4 ways (NewFrom literal; SetInt/SetUint/SetFloat/SetString/SetBool; NewFrom with ${src} references and VarExp, src literal or Set*) x 15 target kinds x plain/*T/named/*named x struct field, map[string]T value, []T element, plus the getters Bool/Int/Uint/Float/String; then the value as TEXT the library reads again, in 9 forms (\"${src:D}\" and \"${src:?msg}\" with src set, literal or Set*: the library renders the value itself; \"${absent:TEXT}\"; \"${other:+TEXT}\"; \"${hi}${lo}\" and \"TE${lo}\" / \"${hi}XT\" with TEXT cut at a random place; \"${ENVX}\" and \"${ENVX:D}\" answered by a Resolve option with parse.EnvConfig/DefaultConfig/NoopConfig; a -E style flag value f=TEXT), TEXT = the string value itself when it is a word (letters, digits, + - . _ only) or the decimal numeral of an int64/uint64 value, each form x every target type through one random route + the getters; then random cases of 16 values each within +-4 (ulp) of a boundary, every kind and getter through one random (construction, variant, route) and once more through one of three random applicable text forms. Non-trivial = the setting value is not zero/false/blank; distinct = distinct (value class = kind, syntax, sign, bit length/exponent, fractional?; target type; construction/route)."
+	return "setting values: a finite boundary table (0, +-1, +-2^k and +-(2^k+-1) for k in {7,8,15,16,31,32,53,63,64}, float neighbours of +-2^31/2^32/2^63/2^64/2^53, MaxFloat32 / the float32 rounding limit / MaxFloat64 / subnormals and their neighbours, +-Inf, NaN, -0, fractional values at every sized maximum, second counts at +-9223372036(.854775807) and at 2^53ns/2^62ns; each as int64, uint64, float64 and in every strconv spelling: decimal, 0x, 0X, 0b, 0o, 0NNN, 1_000, +N, N.0, Ne0, %g/%e/%E/%x/%f; plus booleans, duration strings at the int64 limits and unparsable strings) - one case per table value: the value built 4 ways (NewFrom literal; SetInt/SetUint/SetFloat/SetString/SetBool; NewFrom with ${src} references and VarExp, src literal or Set*) x 15 target kinds (+ uintptr, monitors only) x plain/*T/named/*named x struct field, map[string]T value, []T element, plus the getters Bool/Int/Uint/Float/String; then the value as TEXT the library reads again, in 9 forms (\"${src:D}\" and \"${src:?msg}\" with src set, literal or Set*: the library renders the value itself; \"${absent:TEXT}\"; \"${other:+TEXT}\"; \"${hi}${lo}\" and \"TE${lo}\" / \"${hi}XT\" with TEXT cut at a random place; \"${ENVX}\" and \"${ENVX:D}\" answered by a Resolve option with parse.EnvConfig/DefaultConfig/NoopConfig; a -E style flag value f=TEXT), TEXT = the string value itself when it is a word (letters, digits, + - . _ only) or the decimal numeral of an int64/uint64 value, each form x every target type through one random route + the getters; then random cases of 16 values each within +-4 (ulp) of a boundary, every kind and getter through one random (construction, variant, route) and once more through one of three random applicable text forms. Non-trivial = the setting value is not zero/false/blank; distinct = distinct (value class = kind, syntax, sign, bit length/exponent, fractional?; target type; construction/route)."
 }
 
 func (check) Assumptions() []string {
@@ -58,7 +58,11 @@ func (check) Assumptions() []string {
 		"an error where a value was possible is reported only for in-range integer->integer, integer->float64 when exactly representable, and float64->float64 (literal numbers, any route)",
 		"a named type over time.Duration (type D time.Duration, also *D, as map value and slice element) is generated and converted but NOT held to the seconds reading: to reflection it is a named int64 like any other (Kind int64, no methods, nothing links it to time.Duration), so no library can give it another meaning than `type N int64`, whose values this check pins to the bare number; only panics are reported, the named_duration_* monitors count what is stored (switch judgeNamedDurationAsSeconds turns the duration oracle on: sig number-to-named-duration-taken-as-nanoseconds)",
 		"monitor only (an error is always allowed): plain_ref_fails_where_value_converts counts (value, target, route) triples of the table cases in which the literal / Set* value converts and a plain \"${src}\" reference to it returns an error",
-		"text the library reads again (expansion forms other than a plain \"${src}\", resolver answers, flag values): only words without white space, quotes, brackets, commas, colons, $ and not \"null\", so that list/object/quoting syntax and the splice syntax play no part. The reference for text T: an integer numeral in Go's base-0 syntax (math/big, any length, explicit + allowed) that fits int64 or uint64 must reach integer targets exactly or as an error, string targets as a numeral of exactly that value (any spelling, read back with math/big), float targets as the nearest float; a numeral both integer and floating point syntax read, differently (\"012\": 10 / 12), may arrive as either in float and string targets; an integer no 64 bit type holds is out of range for every integer target (always an error), for string targets its own text, an exact numeral or a text of the float64 strconv.ParseFloat reads it as; floating point texts mean the float64 strconv.ParseFloat reads; boolean words are not pinned for numeric and string targets, numerals not for bool targets; an error is never reported as spurious on these routes; which of the forms yields which Go type inside the library is not looked at",
+		"text the library reads again (expansion forms other than a plain \"${src}\", resolver answers, flag values): only words without white space, quotes, brackets, commas, colons, $ and not \"null\", so that list/object/quoting syntax and the splice syntax play no part. The reference for text T: an integer numeral in Go's base-0 syntax (math/big, any length, explicit + allowed) that fits int64 or uint64 must reach integer targets exactly or as an error, string targets as a numeral of exactly that value (any spelling, read back with math/big), float targets as the nearest float; a numeral both integer and floating point syntax read, differently (\"012\": 10 / 12), is the integer on every route (next entry); an integer no 64 bit type holds is out of range for every integer target (always an error; a stored value equal to the float64 next to it - the band -2^63-1024..-2^63-1, whose float64 is -2^63 - gets the signature reparsed-integer-beyond-64-bits-stored-as-float64-neighbour), for float targets the nearest float64 of either reading, for string targets its own text, an exact numeral or a text of the float64 strconv.ParseFloat reads it as; floating point texts mean the float64 strconv.ParseFloat reads; boolean words are not pinned for numeric and string targets, numerals not for bool targets; an error is never reported as spurious on these routes; which of the forms yields which Go type inside the library is not looked at",
+		"one setting has one mathematical value: a string that is an integer numeral in base-0 syntax AND a floating point text with another value (leading zero: \"010\" = 8 / 10, \"-0_17\") is the integer - what every integer target and every expansion route reads, and Go's own literal syntax; a float target (float32/float64/Float(), any route, literal strings included) holds that integer's value or fails; a stored decimal reading gets the signature float-target-reads-octal-numeral-as-decimal",
+		"outside the property, monitors only: uintptr targets (an unsigned integer kind, but not one of the fourteen kinds HOLDS FOR names; uintptr_* counters say how often the unsigned rules are met / a value is stored where they demand an error)",
+		"outside the property, not generated: what a front-end decoder makes of a document's number before it is a setting (encoding/json and hjson deliver every number as float64, yaml.v2 rounds integers no 64 bit type holds: the setting IS that float64; C18's domain); Go values of kinds that are no primitive setting (uintptr, complex: NewFrom's business, C07); a named duration type as SOURCE value (a named int64 of nanoseconds to reflection, see the named duration entry)",
+		"not compared: the value a getter returns NEXT TO an error (strconv's saturated MaxInt64/MaxUint64/+-Inf for out-of-range strings); a number reached through a reference or expansion that a Duration target refuses (\"missing unit\") - value-or-error permits it, counted by plain_ref_fails_where_value_converts and the outcome monitors; which of truncation and rounding yields the last nanosecond of float seconds (within 1ns, see above); a float32 target refusing a float64 just above MaxFloat32 that would round to it",
 		"guard: a library that hands back an unconverted string for a named string type panics (recoverably) as map value and never returns (pointerize allocates until the process dies) as struct field or behind a pointer; so in every case the named string map route runs first, and when it panics - reported as a violation - the never-returning routes of that case are skipped (counted in skipped_after_named_string_panic) instead of killing the worker in every case",
 	}
 }
@@ -623,6 +627,12 @@ func errClass(err error) string {
 func (ru *runner) judge(cons, ki int, k *tkind, to string, err error, got reflect.Value, present bool, call func() string) {
 	e, from := ru.expFor(cons, ki)
 	namedDur := to == "named-duration"
+	if e.decimal != nil {
+		ru.res.Ev("float_target_numeral_with_two_readings", 1)
+	}
+	if e.neighbour != nil && (k.class == cInt || k.class == cUint) && inRange(e.neighbour, k) {
+		ru.res.Ev("integer_text_beyond_64_bits_whose_float64_neighbour_fits_the_target", 1)
+	}
 	ru.last = lastOK
 	if err != nil {
 		ru.last = lastErr
@@ -639,6 +649,26 @@ func (ru *runner) judge(cons, ki int, k *tkind, to string, err error, got reflec
 		}
 		v := nsReading(es)
 		return v != nil && v.Sign() != 0 && gotInt(k, got).Cmp(v) == 0
+	}
+	if k.monitor {
+		// outside the quantifier (uintptr): what the unsigned rules would say
+		switch {
+		case err != nil:
+			ru.res.Ev(k.name+"_error", 1)
+		case !present:
+			ru.res.Ev(k.name+"_nothing_stored", 1)
+		case e.mode == mUnpinned:
+			ru.res.Ev(k.name+"_unpinned", 1)
+		case e.mode == mErr:
+			ru.res.Ev(k.name+"_value_where_the_unsigned_rule_is_an_error", 1)
+		case e.matches(k, got):
+			ru.res.Ev(k.name+"_value_as_the_unsigned_rule", 1)
+		case e.deviation(k, got) == "wraps":
+			ru.res.Ev(k.name+"_wraps", 1)
+		default:
+			ru.res.Ev(k.name+"_other_value", 1)
+		}
+		return
 	}
 	if namedDur {
 		// monitors: what a named duration receives
@@ -723,6 +753,10 @@ func (ru *runner) judge(cons, ki int, k *tkind, to string, err error, got reflec
 	}
 	if asNanos() {
 		sig = "number-to-named-duration-taken-as-nanoseconds"
+	}
+	if e.decimal != nil && k.class == cFloat && (sameFloat(got.Float(), *e.decimal) || sameFloat(got.Float(), float64(float32(*e.decimal)))) {
+		// one defect whatever the float target is called and whichever route
+		sig = "float-target-reads-octal-numeral-as-decimal"
 	}
 	ru.res.Violate(sig, "%s returned nil error and stored %s, expected %s", call(), describeGot(k, got), e.describe())
 	ru.outcome(k, "wrong-value")
